@@ -178,6 +178,29 @@ func (g *gen) tnum(tc *tctx, d int) {
 		tc.tbs = tc.tbs[:len(tc.tbs)-1]
 		g.e.close()
 	case k < 16:
+		if tc.outer && g.chance(40) {
+			// macrolet template calling a flet / labels function of the
+			// enclosing code (labels + macrolet, flet + macrolet)
+			var ls []cand
+			for _, c := range g.cands(func(b *bind) bool {
+				return (b.kind == "flet" || b.kind == "labels") && b.sig != nil && len(b.sig.req) > 0 && allNum(b.sig.req) && b.sig.opt == 0 && !b.sig.rest
+			}) {
+				if g.tbLookup(tc, c.b.name) == nil && c.b.name != tc.self {
+					ls = append(ls, c)
+				}
+			}
+			if len(ls) > 0 {
+				c := g.pickCand(ls)
+				g.feat("macrolet-outer-local-fn")
+				g.e.open()
+				g.ref(c, tc.ctx)
+				for range c.b.sig.req {
+					g.tnum(tc, d-1)
+				}
+				g.e.close()
+				return
+			}
+		}
 		gs := g.tglobals(tc, func(b *bind) bool {
 			return b.kind == "defun" && b.sig.ret.K == 'n' && allNum(b.sig.req) && len(b.sig.keys) == 0
 		})
